@@ -9,7 +9,8 @@ TW = 'vulnerable to the Terrapin attack'
 
 
 def is_chacha(n): return n.startswith('chacha20-poly1305')
-def is_cbc(n): return n.endswith('-cbc') or n.endswith('-cbc@openssh.org') or n.endswith('-cbc@ssh.com') or n == 'rijndael-cbc@lysator.liu.se'
+def is_cbc(n): return n.endswith('-cbc') or n.endswith('-cbc@openssh.org') or n.endswith('-cbc@ssh.com') or n == 'rijndael-cbc@lysator.liu.se' or ('cbc' in n.lower() and n in CBC_BY_NAME)
+CBC_BY_NAME = ('des-cbc-ssh1',)   # database names that are CBC ciphers without ending in one of the suffixes (every 'cbc' name of the table is covered: see run())
 def is_etm(n): return n.endswith('-etm@openssh.com')
 
 
@@ -32,6 +33,13 @@ def run(ctx):
     rng = ctx.rng
     g = inproc.Gen(rng)
     db = inproc.tables()
+    # the rule of the statement speaks of CBC-mode ciphers and ETM MACs, not of name suffixes: every table name that says cbc / etm / chacha must be covered
+    for n in db['enc']:
+        if ('cbc' in n.lower() and not is_cbc(n)) or ('chacha' in n.lower() and not is_chacha(n)):
+            ctx.violation('terrapin-name-not-covered/enc/%s' % n, 'database cipher %r is a CBC/ChaCha20 cipher by name but the rule does not cover it' % n, {'op': 'table', 'name': n})
+    for n in db['mac']:
+        if 'etm' in n.lower() and not is_etm(n):
+            ctx.violation('terrapin-name-not-covered/mac/%s' % n, 'database MAC %r is an encrypt-then-MAC MAC by name but the rule does not cover it' % n, {'op': 'table', 'name': n})
     chachas = [n for n in db['enc'] if is_chacha(n)] + ['chacha20-poly1305-zz@example.com']
     cbcs = [n for n in db['enc'] if is_cbc(n)] + ['zz-cbc', 'zz-cbc@ssh.com']
     etms = [n for n in db['mac'] if is_etm(n)] + ['zz-etm@openssh.com']
